@@ -375,6 +375,22 @@ func probeCause(st *stmt, s string) string {
 		}
 		return "comment stripping removes code that follows a comment: " + commentClass(st)
 	}
+	if hasCR && !hasNested {
+		// is the carriage-return comment what makes validation reject? The same statement
+		// with those comments ended by a line feed must then be accepted.
+		st2 := stmt{Marker: st.Marker, Where: st.Where, Toks: append([]tok(nil), st.Toks...)}
+		for i := range st2.Toks {
+			if st2.Toks[i].Kind == "cmt" && st2.Toks[i].Style == "linecr" {
+				st2.Toks[i].Style = "line"
+				if i+1 < len(st2.Toks) && st2.Toks[i+1].Kind == "ws" && st2.Toks[i+1].Text == "\r" {
+					st2.Toks[i+1].Text = "\n"
+				}
+			}
+		}
+		if api.ValidateSQLRequest(st2.text()) == nil {
+			return crSig
+		}
+	}
 	return "validation rejects for a reason unrelated to masking or comments: " + strings.SplitN(msg, ":", 2)[0]
 }
 
